@@ -276,7 +276,8 @@ pub fn encodable(anchors: &[u64], position: u64) -> bool {
 }
 
 pub fn anchors() -> Vec<u64> {
-    vec![0, 1 << 31, 1 << 40, 1 << 61, (1u64 << 62) - (1 << 20)]
+    // (the last one lies beyond 2^63: distances between positions then no longer fit a signed 64-bit integer)
+    vec![0, 1 << 31, 1 << 40, 1 << 61, (1u64 << 62) - (1 << 20), (1u64 << 63) + (1 << 20)]
 }
 
 /// Every frame payload size in a window of 80 consecutive sizes (nine windows by seed), plus,
@@ -450,7 +451,7 @@ pub fn generate(profile_name: &str, seed: u64, policy: &str) -> Script {
     let mut payload_seed = seed << 20;
     let total_weight: u64 = prof.weights.iter().sum();
     let len_weight: u64 = prof.lens.iter().map(|(_, weight)| weight).sum();
-    let max_pos = (1u64 << 62) - 1;
+    let max_pos = (1u64 << 63) + (1 << 23);
     while steps.len() < prof.steps {
         let mut pick = rng.below(total_weight);
         let mut kind = 0;
@@ -567,7 +568,8 @@ pub fn generate(profile_name: &str, seed: u64, policy: &str) -> Script {
                     let candidate = match choice {
                         0 | 1 | 2 => next,
                         3 | 4 => next.saturating_sub(1),
-                        5 => next.saturating_sub(2 + rng.below(3)),
+                        // (in the past: just behind, or - half of the time - at the very beginning of the position space)
+                        5 => if rng.chance(50) { next.saturating_sub(2 + rng.below(3)) } else { rng.below(4).min(next.saturating_sub(2)) },
                         6 | 7 => next + 1 + rng.below(3),
                         8 => next + 100 + rng.below(1000),
                         _ => {
